@@ -298,8 +298,18 @@ def check_subscribe(ctx, prog):
             g = models_std.deref_val(I, st, args[0])
             return I.ret(st, g.fields[0])
         I.type_drops['RwLockWriteGuard'] = lambda I, st, v, ref: I.ret(st, UNIT)
+        @I.model(r'(^|::)JoinHandle::<.*>::abort$|(^|::)JoinHandle::abort$', 'JoinHandle::abort')
+        def m_abort(I, st, f, args, fr):
+            h = models_std.deref_val(I, st, args[0])
+            st.emit('ABORTED', h.fields[0].concrete() if isinstance(h, Agg) else id(h))
+            return I.ret(st, UNIT)
         st = State()
-        olds = [Agg('OutputPortSubscription', (Agg('JoinHandle', (I.mk_int(1000 + i, 'usize'),)),)) for i in range(n_old)]
+        sdef = prog.crate.struct('OutputPortSubscription', 'port/output.rs') or prog.crate.struct('OutputPortSubscription')
+        if not sdef or 'handle' not in sdef['fields']:
+            raise Inconclusive('OutputPortSubscription fields changed: %s' % (sdef and sdef['fields']))
+        # fields other than the task handle (none on the pinned tree) are opaque; a status read through them yields an arbitrary status
+        olds = [Agg('OutputPortSubscription', tuple(Agg('JoinHandle', (I.mk_int(1000 + i, 'usize'),)) if fld == 'handle' else Agg('ActorCell', (Opaque('props', ident='old-subscriber-%d' % i),))
+                                                    for fld in sdef['fields'])) for i in range(n_old)]
         port = Agg('OutputPort', [Opaque('broadcast-sender', ident='tx') if k == 'tx' else Agg('RwLock', (Agg('Vec', olds),)) for k in d['fields']])
         pc = st.alloc(port)
         target = Agg('ActorRef', (Agg('ActorCell', (Opaque('props', ident='subscriber'),)), Agg('PhantomData', ())))
@@ -327,6 +337,8 @@ def check_subscribe(ctx, prog):
                     continue
                 is_kept = any(val_key(x) == val_key(old) for x in kept)
                 ctx.prove('%s.old%d_kept_iff_still_running' % (name, i), o.st.pc, z3.BoolVal(is_kept) == z3.Not(fin), group='C16.subscribe.kept_iff_still_running', key='C16.subscribe', on_cex=cex)
+                was_aborted = any(e[0] == 'ABORTED' and e[1] == 1000 + i for e in o.st.trace)
+                ctx.prove('%s.old%d_a_running_forwarder_is_never_aborted' % (name, i), o.st.pc, z3.Or(z3.BoolVal(not was_aborted), fin), group='C16.subscribe.a_running_forwarder_is_never_aborted', key='C16.subscribe', on_cex=cex)
     ctx.note_witness('C16.subscribe.explored', True)
 
 
